@@ -61,6 +61,10 @@ claim("C16", "static analysis: dominance of every registry growth by a name-exis
       "Decides: every append to t.Listeners / s.Listeners / s.Agents is preceded by an existence test on the name; ListenerRemove deletes the database row first and stops/unregisters only on its success, and does all of stop, unregister and event pruning; ClientClose visits and drops every agent type and listener owned by the closing connection (no early break) and leaves its client loop after shrinking it; existence predicates compare names with ==; bounds/nil obligations and lock pairing in the pkg/service functions reachable from handleConnection. Known finding (printed as KNOWN-FINDING): ExternalC2 listeners started for a service connection are never removed when it closes. Not decided: that a stopped http.Server refuses connections, three-view equality across arbitrary histories.",
       TRUST, "DESIGN.md §3 R12, §4 C16")
 
+claim("C04", "static analysis: who-may-write classification of every store to Agent.JobQueue, SSA shape rules for the bounded batch, the no-job decision and the chunker, lockset discipline (intersection of must-held mutexes over all accesses of a shared table, with one-level caller summaries)",
+      "Decides: JobQueue is written only by tail appends to the same agent's queue, the single-index prefix/suffix split of GetQueuedJobs and the operator's clear; the batch loop leaves before counting the job that reaches DEMON_MAX_RESPONSE_LENGTH and the oversized-first-job escape exists; jobs are handed out exactly when asked and the queue is non-empty; UploadMemFileInChunks cuts [start:min(start+chunk,size)] with stride chunk, one id, the total size, enqueues in order and returns the id; every issued job is recorded once. Known findings (printed as KNOWN-FINDING): JobQueue and Tasks have no common lock although several goroutines touch them. Not decided: exactly-once/FIFO as a history property, fairness.",
+      TRUST, "DESIGN.md §3 R4, §4 C04")
+
 for i in range(1, 21):
     pid = "C%02d" % i
     if pid not in CLAIMS and pid not in NA:
